@@ -20,7 +20,8 @@ RULE_TEXT = ("C01-T: for every witness interface (hand-designed families + VERIF
              "query/command slot by the query flag, refuses an empty slot with UndefinedHeader and otherwise calls "
              "execute_command exactly once; C01-Q: the call parse returns has query = `?` consumed behind the header and "
              "node = the node the header parser returned."
-             " C01-PR: the contracts of the parser combinators the skeleton builds on are read from their bodies - satisfy (accept first byte iff pred / soft error / Incomplete on empty), take_while (never fails; longest prefix, position() form or counting-loop form), optional (never fails; Some(value) or input untouched), tag(b) = satisfy(== b).")
+             " C01-PR: the contracts of the parser combinators the skeleton builds on are read from their bodies - satisfy (accept first byte iff pred / soft error / Incomplete on empty), take_while (never fails; longest prefix, position() form or counting-loop form), optional (never fails; Some(value) or input untouched), tag(b) = satisfy(== b)."
+             " C01-H: parse resolves the header of a unit once, with its own (root, path) arguments (no retry from the root).")
 
 CHILD = "microscpi::tree::Node::child"
 EXECUTE = "microscpi::interface::Interface::execute"
@@ -38,6 +39,8 @@ def run(ck):
     rule_M(ck, lib)
     rule_X(ck, lib)
     rule_W(ck, lib)
+    import c02
+    c02.rule_H2(ck, lib, "C01-H")
     # the node a relative header is looked up in: root at the start of every message (else a header with a missing
     # level would be accepted relative to a stale path)
     import c02
